@@ -28,6 +28,7 @@ def main(prop=PROP, direction=("ser",), kinds=KINDS, title="serializers", extra=
         run.add_results(res)
         PP.report_failures(run, res, label)
         shutil.rmtree(PP._STATE.get("workdir", "/nonexistent"), ignore_errors=True)
+    PP.template_error_guards(run, tuple(t for d, t in (("ser", "serialization.j2"), ("des", "deserialization.j2")) if d in direction))
     if extra is not None:
         extra(run)
     run.notes["obligations_generated_all_kinds"] = n_all
